@@ -31,6 +31,9 @@ def gen_input(alphabet, dtype, shape, rng):
     bits = (rng.rand(*shape) < 0.5)
     flat = bits.reshape(-1)
     flat[0], flat[1] = False, True
+    if bits.ndim >= 2 and bits.shape[0] >= 3:
+        # planted: one whole row (last axis) of ones - in the bipolar alphabet a row without any -1 (the format is a property of the tensor)
+        bits[-1] = True
     x = bits.astype(np.float64)
     if alphabet == "bipolar":
         x = 2 * x - 1
@@ -157,7 +160,7 @@ def unit_reuse(ctx, channel):
 
 
 def unit_exact(ctx, channel):
-    shapes = [(64,), (7, 33), (2, 3, 4, 5)]
+    shapes = [(64,), (7, 33), (2, 3, 4, 5), (50, 2), (40, 1)]
     for p in PS:
         for alphabet in ("binary", "bipolar"):
             for dtype in ("float32", "float64", "int64", "bool"):
